@@ -353,7 +353,6 @@ func (e *cellEnv) runCell(run *report.Run, mode, kind, intake, backend, desc, ke
 	return false
 }
 
-
 func (e *cellEnv) restartStricter(run *report.Run, first, kind, src, backend, desc string) bool {
 	e.n++
 	w := e.w
